@@ -15,7 +15,7 @@
 EXTENDS Tree, TLC
 
 VARIABLES
-  chart,    \* [n, par, init, sigs, react, eff, cap, spy_ring, trc_ring, live_spy, live_trace, host, spied, bad]
+  chart,    \* [n, par, init, sigs, react, eff, cap, spy_ring, trc_ring, live_spy, live_trace, host, spied, bad, build, reg]
   started,  \* start_at has run
   cur,      \* the state the chart rests in (0 before start)
   q, dq,    \* pending and deferred events, each <<signal, id>>
@@ -33,7 +33,7 @@ VARIABLES
 vars == <<chart, started, cur, q, dq, nid, alog, did, res, rtc, full, trc, liveS, liveT, hist>>
 
 Instr  == chart.host # "plain" /\ chart.spied
-Queued == chart.host = "queued"
+Queued == chart.host \in {"queued", "factory"}
 States == 1..chart.n
 
 Name(s)     == IF s = 0 THEN "top" ELSE "s" \o ToString(s)
